@@ -29,18 +29,47 @@ fn fixed_random_state() -> RandomState {
     unsafe { core::mem::transmute::<[u64; 2], RandomState>([0u64, 0u64]) }
 }
 
-/// Recorder standing in for the private `JournaledState::journal_revert(state, transient, entries, is_spurious_dragon)`:
-/// it keeps the arguments of every call, in call order, and touches neither the state nor the transient storage.
+/// `bytes::Bytes::drop` calls through the function pointer `vtable.drop`; CBMC has to consider every candidate (shared /
+/// promotable / owned buffers, atomics, `free` of an unknown pointer): dropping ONE empty `Log` costs gigabytes.  The logs
+/// used here carry `Bytes::new()` (static, nothing to free): dropping them is a no-op in the real code as well.
+fn bytes_drop_noop(_b: &mut bytes::Bytes) {}
+
+/// Recorder standing in for the private `JournaledState::journal_revert(state, transient, entries, is_spurious_dragon)`.
+/// It touches neither the state nor the transient storage and keeps, per call and in call order: the number of entries,
+/// the flag, WHICH level's buffer it was handed (the driver moves each level out with `mem::take`, so the buffer address
+/// identifies the level; the harness registers the addresses in LEVEL_PTR before the revert) and the tags of the entries
+/// found there at the moment of the call.  The entries are read through the harness's own registered pointer: reading
+/// through the Vec the driver passes costs > 10 GB (its data pointer was loaded from `journal` at an offset that
+/// symbolic execution cannot resolve, so CBMC dereferences it against every object).
 const MAX_CALLS: usize = 5;
-const NO_CALL: Option<(Vec<JournalEntry>, bool)> = None;
-static mut REC: [Option<(Vec<JournalEntry>, bool)>; MAX_CALLS] = [NO_CALL; MAX_CALLS];
+const NO_LEVEL: usize = usize::MAX;
+static mut LEVEL_PTR: [*const JournalEntry; ML] = [core::ptr::null(); ML];
+static mut LEVEL_LEN: [usize; ML] = [0; ML];
+static mut REC_LEN: [usize; MAX_CALLS] = [0; MAX_CALLS];
+static mut REC_LEVEL: [usize; MAX_CALLS] = [NO_LEVEL; MAX_CALLS];
+static mut REC_TAGS: [[(u8, u64); ME]; MAX_CALLS] = [[(0, 0); ME]; MAX_CALLS];
+static mut REC_SD: [bool; MAX_CALLS] = [false; MAX_CALLS];
 static mut REC_N: usize = 0;
 fn recording_journal_revert(_state: &mut EvmState, _transient: &mut TransientStorage, entries: Vec<JournalEntry>, sd: bool) {
     unsafe {
         assert!(REC_N < MAX_CALLS, "journal_revert called more often than there are levels");
-        REC[REC_N] = Some((entries, sd));
+        REC_LEN[REC_N] = entries.len();
+        REC_SD[REC_N] = sd;
+        if entries.len() != 0 {
+            for l in 0..ML {
+                if LEVEL_LEN[l] != 0 && LEVEL_PTR[l] == entries.as_ptr() {
+                    REC_LEVEL[REC_N] = l;
+                    for e in 0..ME {
+                        if e < LEVEL_LEN[l] {
+                            REC_TAGS[REC_N][e] = entry_tag(&*LEVEL_PTR[l].add(e));
+                        }
+                    }
+                }
+            }
+        }
         REC_N += 1;
     }
+    core::mem::forget(entries);
 }
 
 // ------------------------------------------------------------------------------------------------ helpers
@@ -85,26 +114,47 @@ fn log_of(id: u8) -> Log {
     Log { address: addr(id), data: LogData::new_unchecked(Vec::new(), Bytes::new()) }
 }
 
-/// push `n` fresh entries (n <= 2) on the last journal level, the way every operation journals (`journal.last_mut().push`).
-/// No loop on a symbolic count: symbolic execution would unroll it up to the unwinding bound.
-fn push_entries(js: &mut JournaledState, n: usize, next_id: &mut u8, w: u64) {
-    if n >= 1 {
-        js.journal.last_mut().unwrap().push(entry(*next_id, w));
-    }
-    if n >= 2 {
-        js.journal.last_mut().unwrap().push(entry(*next_id + 1, w));
-    }
-    *next_id += 2;
+/// What the harness itself pushed, kept in plain arrays at CONCRETE positions (lengths read back from a Vec on the heap
+/// are not constants for symbolic execution: loops over them would be unrolled up to the unwinding bound).
+const ML: usize = 6; // levels
+const ME: usize = 4; // entries per level
+const MLOG: usize = 6;
+struct Shadow {
+    tags: [[(u8, u64); ME]; ML],
+    lens: [usize; ML],
+    levels: usize,
+    logs: [u8; MLOG],
+    nlogs: usize,
+    next_id: u8,
 }
-fn push_logs(js: &mut JournaledState, n: usize, next_id: &mut u8) {
-    if n >= 1 {
-        js.log(log_of(*next_id));
+impl Shadow {
+    fn new() -> Self {
+        Shadow { tags: [[(0, 0); ME]; ML], lens: [0; ML], levels: 1, logs: [0; MLOG], nlogs: 0, next_id: 1 }
     }
-    if n >= 2 {
-        js.log(log_of(*next_id + 1));
+    /// push `n` fresh entries on the last journal level, the way every operation journals (`journal.last_mut().push`)
+    fn push_entries(&mut self, js: &mut JournaledState, n: usize, w: u64) {
+        let l = self.levels - 1;
+        for _ in 0..n {
+            js.journal.last_mut().unwrap().push(entry(self.next_id, w));
+            self.tags[l][self.lens[l]] = (self.next_id, if self.next_id % 3 == 0 { 0 } else { w });
+            self.lens[l] += 1;
+            self.next_id += 1;
+        }
     }
-    *next_id += 2;
+    fn push_logs(&mut self, js: &mut JournaledState, n: usize) {
+        for _ in 0..n {
+            js.log(log_of(self.next_id));
+            self.logs[self.nlogs] = self.next_id;
+            self.nlogs += 1;
+            self.next_id += 1;
+        }
+    }
+    fn checkpoint(&mut self, js: &mut JournaledState) -> JournalCheckpoint {
+        self.levels += 1;
+        js.checkpoint()
+    }
 }
+
 // ------------------------------------------------------------------------------------------------ (1) the driver
 /// `checkpoint_revert(cp)` -- CALL PROTOCOL and bookkeeping, for every fork, on ONE CONCRETE SHAPE per harness (a symbolic
 /// shape -- symbolic Vec lengths -- went past 12 GB): `pre` = entries on each level open when `cp = checkpoint()` is
@@ -114,7 +164,8 @@ fn push_logs(js: &mut JournaledState, n: usize, next_id: &mut u8) {
 /// entries always go to `journal.last_mut()`, as in every operation).  Entry payloads and the fork are symbolic.
 /// Checked against `revert_post` (contracts/journal.vc), with `journal_revert` replaced by the recorder:
 ///  * journal_revert is called once per level of journal[journal_i..], LAST LEVEL FIRST, each time with exactly that
-///    level's entries (in order) and with the EIP-161 flag of `spec`;  nothing else touches state / transient storage;
+///    level's entries (that level's buffer, its length, its contents in order at the moment of the call) and with the
+///    EIP-161 flag of `spec`;  nothing else touches state / transient storage;
 ///  * journal == old journal[..journal_i] (levels below the checkpoint keep their entries);
 ///  * logs == old logs[..log_i];   depth == old depth - 1;   spec and the pre-warmed set unchanged.
 fn driver_case(pre: &[usize], logs0: usize, own: usize, logs1: usize, inner: &[(usize, usize)], inner_open: bool, tail: usize) {
@@ -127,95 +178,82 @@ fn driver_case(pre: &[usize], logs0: usize, own: usize, logs1: usize, inner: &[(
         }
     };
     let mut js = JournaledState::new(spec, HashSet::default());
-    let mut id: u8 = 1;
+    let mut sh = Shadow::new();
     let w: u64 = kani::any();
 
     // ---- before the checkpoint
-    push_entries(&mut js, pre[0], &mut id, w);
-    push_logs(&mut js, logs0, &mut id);
+    sh.push_entries(&mut js, pre[0], w);
+    sh.push_logs(&mut js, logs0);
     for l in 1..pre.len() {
-        let _ = js.checkpoint();
-        push_entries(&mut js, pre[l], &mut id, w);
+        let _ = sh.checkpoint(&mut js);
+        sh.push_entries(&mut js, pre[l], w);
     }
 
     // ---- the checkpoint under test
-    let depth0 = js.depth;
-    let journal_i = js.journal.len();
-    let log_i = js.logs.len();
-    assert!(journal_i == pre.len() && log_i == logs0 && depth0 == pre.len() - 1);
-    let cp = js.checkpoint();
-    push_entries(&mut js, own, &mut id, w);
-    push_logs(&mut js, logs1, &mut id);
+    let depth0 = pre.len() - 1;
+    let journal_i = pre.len();
+    let log_i = logs0;
+    assert!(js.journal.len() == journal_i && js.logs.len() == log_i && js.depth == depth0);
+    let cp = sh.checkpoint(&mut js);
+    sh.push_entries(&mut js, own, w);
+    sh.push_logs(&mut js, logs1);
 
     // ---- inner frames (committed, or left open)
     for k in 0..inner.len() {
-        let _ = js.checkpoint();
-        push_entries(&mut js, inner[k].0, &mut id, w);
-        push_logs(&mut js, inner[k].1, &mut id);
+        let _ = sh.checkpoint(&mut js);
+        sh.push_entries(&mut js, inner[k].0, w);
+        sh.push_logs(&mut js, inner[k].1);
         if !inner_open {
             js.checkpoint_commit();
         }
     }
-    push_entries(&mut js, tail, &mut id, w);
-    if !inner_open {
-        assert!(js.depth == depth0 + 1);
-    }
-
-    // ---- snapshot: own copy of the tags of every entry / log
-    const ML: usize = 6;
-    let levels_before = js.journal.len();
-    assert!(levels_before == journal_i + 1 + inner.len() && levels_before <= ML);
-    let mut tags: [[(u8, u64); 4]; ML] = [[(0, 0); 4]; ML];
-    let mut lens: [usize; ML] = [0; ML];
+    sh.push_entries(&mut js, tail, w);
+    let depth_pre = if inner_open { depth0 + 1 + inner.len() } else { depth0 + 1 };
+    assert!(js.depth == depth_pre);
+    let levels_before = sh.levels;
+    assert!(js.journal.len() == levels_before && levels_before == journal_i + 1 + inner.len());
+    let warm_len = js.warm_preloaded_addresses.len();
+    // register the buffers of the levels (concrete indices: these loads are resolved)
     for l in 0..levels_before {
-        lens[l] = js.journal[l].len();
-        for e in 0..lens[l] {
-            tags[l][e] = entry_tag(&js.journal[l][e]);
-            assert!(tags[l][e].0 != 0xFF);
+        assert!(js.journal[l].len() == sh.lens[l]);
+        unsafe {
+            LEVEL_PTR[l] = js.journal[l].as_ptr();
+            LEVEL_LEN[l] = sh.lens[l];
         }
     }
-    let mut log_ids: [u8; 2] = [0; 2];
-    for i in 0..log_i {
-        log_ids[i] = addr_id(&js.logs[i].address);
-    }
-    let depth_pre = js.depth;
-    let warm_len = js.warm_preloaded_addresses.len();
 
     js.checkpoint_revert(cp);
 
     // ---- revert_post
     assert!(js.depth == depth_pre - 1);
-    if !inner_open {
-        assert!(js.depth == depth0);
-    }
     assert!(js.spec == spec);
     assert!(js.warm_preloaded_addresses.len() == warm_len);
     assert!(js.state.is_empty() && js.transient_storage.is_empty());
     // journal cut back to the checkpoint, lower levels intact
     assert!(js.journal.len() == journal_i);
     for l in 0..journal_i {
-        assert!(js.journal[l].len() == lens[l]);
-        for e in 0..lens[l] {
+        assert!(js.journal[l].len() == sh.lens[l]);
+        for e in 0..sh.lens[l] {
             let t = entry_tag(&js.journal[l][e]);
-            assert!(t.0 == tags[l][e].0 && t.1 == tags[l][e].1);
+            assert!(t.0 == sh.tags[l][e].0 && t.1 == sh.tags[l][e].1);
         }
     }
     // logs cut back
     assert!(js.logs.len() == log_i);
     for i in 0..log_i {
-        assert!(addr_id(&js.logs[i].address) == log_ids[i]);
+        assert!(addr_id(&js.logs[i].address) == sh.logs[i]);
     }
     // journal_revert: once per level above the checkpoint, last level first, that level's entries, the fork's EIP-161 flag
     let calls = unsafe { REC_N };
     assert!(calls == levels_before - journal_i);
-    for c in 0..calls {
+    for c in 0..(levels_before - journal_i) {
         let l = levels_before - 1 - c;
-        let (entries, sd) = unsafe { REC[c].as_ref().unwrap() };
-        assert!(*sd == eip161_active(spec));
-        assert!(entries.len() == lens[l]);
-        for e in 0..lens[l] {
-            let t = entry_tag(&entries[e]);
-            assert!(t.0 == tags[l][e].0 && t.1 == tags[l][e].1);
+        assert!(unsafe { REC_SD[c] } == eip161_active(spec));
+        assert!(unsafe { REC_LEN[c] } == sh.lens[l]);
+        assert!(unsafe { REC_LEVEL[c] } == if sh.lens[l] == 0 { NO_LEVEL } else { l });
+        for e in 0..sh.lens[l] {
+            let t = unsafe { REC_TAGS[c][e] };
+            assert!(t.0 == sh.tags[l][e].0 && t.1 == sh.tags[l][e].1);
         }
     }
     kani::cover!(!eip161_active(spec));
@@ -229,6 +267,7 @@ macro_rules! driver_harness {
         #[kani::unwind($unwind)]
         #[kani::stub(std::collections::hash_map::RandomState::new, fixed_random_state)]
         #[kani::stub(crate::journaled_state::JournaledState::journal_revert, recording_journal_revert)]
+        #[kani::stub(<bytes::Bytes as core::ops::Drop>::drop, bytes_drop_noop)]
         fn $name() {
             driver_case(&$pre, $logs0, $own, $logs1, &$inner, $open, $tail);
         }
@@ -247,3 +286,81 @@ driver_harness!(driver_empty_level, 6, [2], 2, 0, 0, NONE, false, 0);
 driver_harness!(driver_inner_open, 6, [1], 0, 1, 0, [(1, 1), (1, 0)], true, 0);
 // three levels below the checkpoint stay intact
 driver_harness!(driver_deep_outer, 6, [1, 2, 0], 2, 1, 2, [(1, 0)], false, 2);
+static mut T_LEN: usize = 99;
+static mut T_ID: u8 = 0;
+static mut T_PTR: *const JournalEntry = core::ptr::null();
+static mut T_SAVED: *const JournalEntry = core::ptr::null();
+fn e1_rec(_state: &mut EvmState, _transient: &mut TransientStorage, entries: Vec<JournalEntry>, _sd: bool) {
+    unsafe { T_LEN = entries.len(); T_PTR = entries.as_ptr(); }
+    core::mem::forget(entries);
+}
+fn e2_rec(_state: &mut EvmState, _transient: &mut TransientStorage, entries: Vec<JournalEntry>, _sd: bool) {
+    unsafe { T_LEN = entries.len(); if entries.len() == 2 { T_ID = entry_tag(&*T_SAVED.add(1)).0; } }
+    core::mem::forget(entries);
+}
+#[kani::proof]
+#[kani::unwind(4)]
+#[kani::stub(std::collections::hash_map::RandomState::new, fixed_random_state)]
+#[kani::stub(crate::journaled_state::JournaledState::journal_revert, e1_rec)]
+fn tmp_e13() {
+    let mut js = JournaledState::new(SpecId::CANCUN, HashSet::default());
+    let mut j = Vec::with_capacity(8);
+    j.push(Vec::new());
+    core::mem::forget(core::mem::replace(&mut js.journal, j));
+    let cp = js.checkpoint();
+    js.journal.last_mut().unwrap().push(entry(3, 0));
+    js.journal.last_mut().unwrap().push(entry(6, 0));
+    let saved = js.journal[1].as_ptr();
+    js.checkpoint_revert(cp);
+    assert!(unsafe { T_LEN } == 2 && unsafe { T_PTR } == saved);
+    assert!(entry_tag(unsafe { &*saved.add(1) }).0 == 6);
+    assert!(js.depth == 0 && js.journal.len() == 1);
+    kani::cover!(true);
+    core::mem::forget(js);
+}
+#[kani::proof]
+#[kani::unwind(4)]
+#[kani::stub(std::collections::hash_map::RandomState::new, fixed_random_state)]
+#[kani::stub(crate::journaled_state::JournaledState::journal_revert, e2_rec)]
+fn tmp_e2() {
+    let mut js = JournaledState::new(SpecId::CANCUN, HashSet::default());
+    let mut j = Vec::with_capacity(8);
+    j.push(Vec::new());
+    core::mem::forget(core::mem::replace(&mut js.journal, j));
+    let cp = js.checkpoint();
+    js.journal.last_mut().unwrap().push(entry(3, 0));
+    js.journal.last_mut().unwrap().push(entry(6, 0));
+    unsafe { T_SAVED = js.journal[1].as_ptr(); }
+    js.checkpoint_revert(cp);
+    assert!(unsafe { T_LEN } == 2 && unsafe { T_ID } == 6);
+    assert!(js.depth == 0 && js.journal.len() == 1);
+    kani::cover!(true);
+    core::mem::forget(js);
+}
+#[kani::proof]
+#[kani::unwind(4)]
+#[kani::stub(std::collections::hash_map::RandomState::new, fixed_random_state)]
+fn tmp_t3() {
+    let mut js = JournaledState::new(SpecId::CANCUN, HashSet::default());
+    let cp = js.checkpoint();
+    js.journal.last_mut().unwrap().push(entry(3, 0));
+    js.journal.last_mut().unwrap().push(entry(6, 0));
+    assert!(entry_tag(&js.journal[1][1]).0 == 6);
+    kani::cover!(true);
+    core::mem::forget(js);
+}
+#[kani::proof]
+#[kani::unwind(4)]
+#[kani::stub(std::collections::hash_map::RandomState::new, fixed_random_state)]
+#[kani::stub(crate::journaled_state::JournaledState::journal_revert, e1_rec)]
+fn tmp_t4() {
+    let mut js = JournaledState::new(SpecId::CANCUN, HashSet::default());
+    let cp = js.checkpoint();
+    js.journal.last_mut().unwrap().push(entry(3, 0));
+    js.journal.last_mut().unwrap().push(entry(6, 0));
+    assert!(entry_tag(&js.journal[1][1]).0 == 6);
+    js.checkpoint_revert(cp);
+    assert!(unsafe { T_LEN } == 2);
+    kani::cover!(true);
+    core::mem::forget(js);
+}
